@@ -152,5 +152,5 @@ Example c10_nonvacuous :
   field_set 32 0 (FRange (Part 20 32 false)) (-4097) = Internal AssertionError /\
   roundtrip 8 (FRange (Part 0 8 true)) (-128) = Some (-128) /\
   roundtrip 32 (FConcat [Part 31 32 false; Part 7 8 false; Part 25 31 false; Part 8 12 false]) 0xABC = Some 0xABC /\
-  (List.length fields_table > 100)%nat.
+  (100 <? Z.of_nat (List.length fields_table)) = true.
 Proof. vm_compute. repeat split. Qed.
